@@ -205,6 +205,24 @@ def run(ck):
             magree = (m[0] == "ok" and got[0] == "ok" and close(got[1], frac_of(m[1]), rel=1e-3)) or (m[0] == "err" and got == ("err", "calc"))
             if not magree and okk:
                 ck.broken.append({"step": "correspondence Model/Registry.propValue", "what": {"case": [acc, calc, hb, hu], "model": pr, "implementation": got}})
+    # the unit argument is honoured on the fallback path too (user-supplied saturation pressure, backend absent or unable to answer)
+    for has_backend, T in ((False, 300.0), (True, 500.0)):
+        props = {"saturation_pressure": 101325.0}
+        if has_backend:
+            props["backend_name"] = "NITROGEN"
+        a = pg.Adsorbate("pgv_fb_unit", store=False, **props)
+        for u in units:
+            ck.count(("fallback-unit", has_backend, u), bucket="fallback")
+            for meth in ("saturation_pressure", "pressure_saturation"):
+                if not hasattr(a, meth):
+                    continue
+                try:
+                    v = float(getattr(a, meth)(T, unit=u))
+                except Exception as e:  # noqa
+                    ck.fail_case({"clause": "fallback", "accessor": meth, "what": "unit honoured", "backend": has_backend}, {"unit": u, "error": repr(e)[:200]})
+                    continue
+                if abs(v * PA[u] - 101325.0) > 1e-9 * 101325.0:
+                    ck.fail_case({"clause": "fallback", "accessor": meth, "what": "unit honoured", "backend": has_backend}, {"unit": u, "value": v, "expected": 101325.0 / PA[u]})
     ck.cov["exhaustive"] = True
     ck.cov["correspondence_disagreements"] = n_dis
     ck.cov["rule"] = ("every shipped alias x {as is, upper, title, swapcase} through Adsorbate.find (exhaustive) and through an isotherm "
